@@ -29,6 +29,11 @@ Second tie (correspondence, exhaustive small universe): TestVerifC05Player runs 
 transitions (filter timeout → soft vote, deadline → next vote, fast timeout → late/redo/down, partitioned() → re-broadcast of the
 freshest bundle) for every combination of entry cache × leader × staged value × payload, and the Lean driver `c05` answers the same
 situations from the reaction functions of Spec.AgreementSync (softValue, nextValue, fastVote, partitioned); a mismatch is a violation.
+The same test runs the real bundleFresh on a grid of (period, LastConcluding, step, bundle round/period/step) tuples against the
+model's bundleFresh (`bundle_of_concluded_period_accepted`: a bundle of the concluded period is accepted whatever its step).
+Directed family (TestVerifC05, ids 9100+): asynchronous prefixes in which one period has a ⊥ next quorum at step sb seen by a
+minority A and a value next quorum at step sv ≥ sb+2 seen by another minority C (n = 4..7, sb = 4..7, both schedulers), so that
+progress after the synchrony point depends on C accepting the re-broadcast (p, sb, ⊥) bundle.
 Replay = the schedule (header + decisions incl. the `sync` line), re-executed by TestVerifC05 (or TestVerifNetDrive for C01's corpus)."""
 import concurrent.futures, glob, json, os, re, sys
 import vf
@@ -343,6 +348,14 @@ def player_tie(ctx, exe, stats):
         if o.startswith("deadline-increase"):
             ctx.violation("deadlines do not increase: one real player, step timeouts only, period %s: %s" % (o.split()[1], a),
                           {"kind": "player", "ops": [o], "impl_out": a, "monitor": "deadline"}, found_input=True)
+        elif o.startswith("bfresh"):
+            f = o.split()
+            ctx.violation("bundleFresh differs from the rule the synchronous phase relies on (Spec.AgreementSync.bundleFresh: a bundle of the node's round is accepted iff it is a cert "
+                          "bundle or its period is ≥ the node's period − 1, whatever the steps): node in round %s period %s (left the previous period at step %s, now at step %s), "
+                          "bundle of round %s period %s step %s — real code: `%s`, model: `%s`.  A node that entered a period on a late quorum can then never learn of an earlier "
+                          "quorum of the concluded period from the re-broadcast bundle (partitionPolicy), and a split period stays split"
+                          % (f[1], f[2], f[3], f[4], f[5], f[6], f[7], a, b),
+                          {"kind": "player", "ops": [o], "index": i, "impl_out": a, "model_out": b}, found_input=True)
         else:
             ctx.violation("a timeout transition of the real player differs from the synchronous-phase model the lemmas are about (Spec.AgreementSync): situation `%s` "
                           "(grammar: lean/AlgoVerif/Driver/C05.lean) — real player: `%s`, model: `%s`" % (o, a, b),
@@ -399,7 +412,7 @@ def run(ctx, replay=None):
         return
     run_corpus(ctx, exe, stats, tmo)
     player_tie(ctx, exe, stats)
-    total = ctx.budget(24, 1600)
+    total = ctx.budget(20, 1600)
     if not proved:
         total *= 4
     scale = os.environ.get("VERIF_BUDGET_SCALE")
